@@ -683,6 +683,7 @@ def no_global_mutation(tree, g, label):
                     for t in s2.targets:
                         if isinstance(t, ast.Name):
                             class_mutables.setdefault(st.name, set()).add(t.id)
+    class_names = {st.name for st in tree.body if isinstance(st, ast.ClassDef)}
     for fn in [n for n in ast.walk(tree) if isinstance(n, ast.FunctionDef)]:
         local = {a.arg for a in fn.args.args + fn.args.kwonlyargs}
         for n in ast.walk(fn):
@@ -698,6 +699,18 @@ def no_global_mutation(tree, g, label):
                 base = n.func.value
             elif isinstance(n, ast.Global):
                 problems.append(f"{fn.name} line {n.lineno}: global statement")
+            elif isinstance(n, (ast.Assign, ast.AugAssign, ast.AnnAssign)):
+                # an attribute of the CLASS assigned from inside a function outlives the call and the object:
+                # type(self).x = ..., self.__class__.x = ..., cls.x = ..., ClassName.x = ...
+                for t in (n.targets if isinstance(n, ast.Assign) else [n.target]):
+                    if not isinstance(t, ast.Attribute):
+                        continue
+                    v = t.value
+                    on_class = (isinstance(v, ast.Call) and isinstance(v.func, ast.Name) and v.func.id == "type") or \
+                        (isinstance(v, ast.Attribute) and v.attr == "__class__") or \
+                        (isinstance(v, ast.Name) and (v.id == "cls" or v.id in class_names) and v.id not in local - {"cls"})
+                    if on_class:
+                        problems.append(f"{fn.name} line {n.lineno}: assigns the class attribute {t.attr} (state shared by every object and call)")
             if base is None:
                 continue
             if isinstance(base, ast.Name) and base.id in module_mutables and base.id not in local:
